@@ -193,7 +193,8 @@ static void tk_obs(spif_obj_t o, char *b, size_t n)
 
 /* ------------------------------------------------------------------ url */
 static const char *URB[] = { "new()", "from_ptr(\"http://u:p@h:8/p?q\")", "from_ptr(\"h\")", "from_ptr(\"/path\")", "from_ptr(\"zz://host/x\")", "from_ptr(\"\")", "from_ptr(\"http://h:8/p\")+unparse",
-                             "from_ptr(\"h:8\")+set_host(new \"g\")+unparse", "from_ptr(\"h:8/p\")+set_host(new \"g\")", "from_ptr(\"u@h\")", "from_ptr(\"b\")", "from_ptr(\"/pub/f\")+set_port(new \"21\") (a port without a host)", "from_ptr(\"http://h:/p\") (a colon and no port, a scheme the service database knows)" };
+                             "from_ptr(\"h:8\")+set_host(new \"g\")+unparse", "from_ptr(\"h:8/p\")+set_host(new \"g\")", "from_ptr(\"u@h\")", "from_ptr(\"b\")", "from_ptr(\"/pub/f\")+set_port(new \"21\") (a port without a host)", "from_ptr(\"http://h:/p\") (a colon and no port, a scheme the service database knows)",
+                             "from_ptr(\"HTTP://x.org/\")", "from_ptr(\"Zebra/readme\")", "from_ptr(\"ftp://x.org/\")" };      /* the last three: text order and scheme order disagree (capital scheme, a scheme-less text in between) */
 static spif_obj_t ur_build(int i)
 {
     spif_url_t u;
@@ -210,6 +211,9 @@ static spif_obj_t ur_build(int i)
     case 9: return SPIF_OBJ(spif_url_new_from_ptr((spif_charptr_t) "u@h"));
     case 11: u = spif_url_new_from_ptr((spif_charptr_t) "/pub/f"); spif_url_set_port(u, spif_str_new_from_ptr((spif_charptr_t) "21")); return SPIF_OBJ(u);
     case 12: return SPIF_OBJ(spif_url_new_from_ptr((spif_charptr_t) "http://h:/p"));
+    case 13: return SPIF_OBJ(spif_url_new_from_ptr((spif_charptr_t) "HTTP://x.org/"));
+    case 14: return SPIF_OBJ(spif_url_new_from_ptr((spif_charptr_t) "Zebra/readme"));
+    case 15: return SPIF_OBJ(spif_url_new_from_ptr((spif_charptr_t) "ftp://x.org/"));
     default: return SPIF_OBJ(spif_url_new_from_ptr((spif_charptr_t) "b"));
     }
 }
@@ -293,7 +297,7 @@ static spif_obj_t ls_build(int i)
     return l;
 }
 static const char *ls_bname(int i) { return LSB[i]; }
-static const char *LSM[] = { "append(new x)", "prepend(new y)", "insert_at(new z, count+1)", "remove_at(0)+del", "reverse()", "remove(a)+del", "mutate first element in place", "to_array+free", "iterator walk+del", "remove_at(count-1)+del", "remove_at(count-1)+del, then append(new w)", "done(), then append(new w)" };
+static const char *LSM[] = { "append(new x)", "prepend(new y)", "insert_at(new z, count+1)", "remove_at(0)+del", "reverse()", "remove(a)+del", "mutate first element in place", "to_array+free", "iterator walk+del", "remove_at(count-1)+del", "remove_at(count-1)+del, then append(new w)", "done(), then append(new w)", "insert_at(NULL, count+5) (refused by the array class), then append(new w)" };
 static void ls_mut(spif_obj_t l, int j)
 {
     spif_obj_t r, p;
@@ -310,6 +314,7 @@ static void ls_mut(spif_obj_t l, int j)
     case 9: if (SPIF_LIST_COUNT(l)) { r = SPIF_LIST_REMOVE_AT(l, (spif_listidx_t) SPIF_LIST_COUNT(l) - 1); if (r) SPIF_OBJ_DEL(r); } break;
     case 10: if (SPIF_LIST_COUNT(l)) { r = SPIF_LIST_REMOVE_AT(l, (spif_listidx_t) SPIF_LIST_COUNT(l) - 1); if (r) SPIF_OBJ_DEL(r); } SPIF_LIST_APPEND(l, S_("w")); break;
     case 11: SPIF_LIST_DONE(l); SPIF_LIST_APPEND(l, S_("w")); break;
+    case 12: if (g_family == 0 && DEBUG_LEVEL < 1) { SPIF_LIST_INSERT_AT(l, (spif_obj_t) NULL, (spif_listidx_t) SPIF_LIST_COUNT(l) + 5); SPIF_LIST_APPEND(l, S_("w")); } break;       /* the linked families store a NULL element; only array refuses it */
     }
 }
 static const char *ls_mname(int j) { return LSM[j]; }
